@@ -195,6 +195,24 @@ def r3_determinism(ctx, chk, rule="C10.3"):
                             and m.value.func.attr == "sort" and isinstance(m.value.func.value, ast.Name) \
                             and m.value.func.value.id == name and cfg.dominates(st, m) and cfg.postdominates(m, st):
                         sorted_ok = True
+            if not sorted_ok and isinstance(owner, ast.For):
+                # the loop only appends to local lists, and each of them is sorted once the loop is over
+                filled = {c.func.value.id for c in ast.walk(owner) if isinstance(c, ast.Call) and isinstance(c.func, ast.Attribute) and c.func.attr in ("append", "extend")
+                          and isinstance(c.func.value, ast.Name)}
+                other_effects = [c for c in ast.walk(owner) if isinstance(c, ast.Call) and isinstance(c.func, ast.Attribute) and c.func.attr in shared.MUTATORS
+                                 and not (isinstance(c.func.value, ast.Name) and c.func.value.id in filled)]
+                stores = [x for b_ in owner.body for x in ast.walk(b_) if isinstance(x, (ast.Assign, ast.AugAssign))]
+                if filled and not other_effects and not stores:
+                    ok_all = True
+                    for name in filled:
+                        srt = [m for m in cfg.statements() if isinstance(m, ast.Expr) and isinstance(m.value, ast.Call) and isinstance(m.value.func, ast.Attribute)
+                               and m.value.func.attr == "sort" and isinstance(m.value.func.value, ast.Name) and m.value.func.value.id == name
+                               and cfg.dominates(owner, m) and not any(m is x for x in ast.walk(owner))]
+                        srt2 = [m for m in cfg.statements() if any(isinstance(c, ast.Call) and call_name(c) == "sorted" and c.args and isinstance(c.args[0], ast.Name) and c.args[0].id == name
+                                                                    for c in ast.walk(m)) and cfg.dominates(owner, m)]
+                        if not srt and not srt2:
+                            ok_all = False
+                    sorted_ok = ok_all
             if sorted_ok:
                 chk.ok(rule, f.where(owner), "set enumerated by `%s` is sorted before use" % norm_stmt(st))
             else:
